@@ -387,6 +387,18 @@ def modelRegexpShortcut (pattern : Bytes) : Option Bytes :=
   else
     match Re.parseCore inner with
     | none => none
-    | some tree => some (pickLongest (regexParts inner) (goReq tree))
+    | some tree =>
+      if tree.hazard then
+        -- (group P3) the expression has a source of case-folded literals next to case-sensitive ones:
+        -- `parser.factor` may regroup what round 1 has factored (`A.|[aA]b|[aA]` is `A(?:.|b|(?:))`),
+        -- which the flat `Node`s of `goReq` do not follow.  Answer only where `goReq` selects what the
+        -- replay of Go's parser (`quirkReq`, UF/Model/RegexQuirk.lean) selects.
+        match tree.quirkReq with
+        | some req =>
+          if pickLongest (regexParts inner) req == pickLongest (regexParts inner) (goReq tree) then
+            some (pickLongest (regexParts inner) (goReq tree))
+          else none
+        | none => none
+      else some (pickLongest (regexParts inner) (goReq tree))
 
 end UF.I2
